@@ -178,6 +178,12 @@ func runC02(p *Program, r *Report) {
 		bad = append(bad, sum.Problems...)
 		r.Check(len(bad) == 0 && len(sum.Returns) > 0, "C02.R4", c, p.Pos(f.Pos()), fmt.Sprintf("%s returns only %v", fnName(f), sum.Kinds()), fmt.Sprintf("%s may emit a URL that did not pass the URL sanitizer: %v", fnName(f), bad))
 	}
+	// ---- R8 the URL guard itself (same obligations as C11.R1–R5) ----------------------------------------------
+	runURLGuardRules(p, r, "C02", false)
+	// ---- R9 link rel derivation ------------------------------------------------------------------------------------
+	checkLinkRelDerivation(p, r, "C02.R9")
+	checkJoinNames(p, r, "C02.R10")
+	checkMemoOutput(p, r, "C02.R11")
 	// ---- R5 memo key ---------------------------------------------------------------------------
 	checkMemoKey(p, r, "C02.R5")
 	// ---- R6 URL-start typestate ----------------------------------------------------------------
@@ -391,6 +397,16 @@ func checkMemoKey(p *Program, r *Report, rule string) {
 	}
 }
 
+// scEqualsAny: do the guards contain sc == v (polarity returned)?
+func scEqualsAny(gs []Atom, v int64) (bool, bool) {
+	for _, a := range gs {
+		if k, ok := scEquals(a); ok && k == v {
+			return a.Pol, true
+		}
+	}
+	return false, false
+}
+
 // checkURLStartTypestate: C02.R6.
 func checkURLStartTypestate(p *Program, r *Report) {
 	ci, err := loadAttrChains(p)
@@ -480,6 +496,53 @@ func checkURLStartTypestate(p *Program, r *Report) {
 	} else {
 		r.Viol("C02.R6", "template.(*escaper).escapeAction#marks-value-started", p.Pos(ea.Pos()), fmt.Sprintf("an action inside an attribute value leaves attr fields %v untouched, so a following action is again treated as the start of the URL and sanitized on its own", sortedKeys(start)),
 			`<a href="{{.A}}{{.B}}"> with A="java", B="script:alert(1)"`)
+	}
+	// URL-valued contexts outside the URL class (srcset): their sanitizer emits complete URLs, so the same
+	// typestate is needed — the generic chain must not be chosen without a test of the START fields
+	pl := ci.Policy
+	pvs := NewProv(p)
+	pvs.NoInline = true
+	for _, v := range sortedInt64Keys(pl.Info) {
+		f := pl.SanitizerFunc(v)
+		if f == nil {
+			continue
+		}
+		sum := summariseSanitizer(p, pvs, f)
+		emitsURL := false
+		for _, k := range sum.Kinds() {
+			if k == "urlsanitized" || k == "urlsetsanitized" {
+				emitsURL = true
+			}
+		}
+		name := pl.Info[v].Name
+		if !emitsURL || name == "URL" || name == "TrustedResourceURLOrURL" || name == "TrustedResourceURL" {
+			continue
+		}
+		// is there a chain alternative for this context that tests the START fields?
+		tested := false
+		for _, alt := range ci.Alts {
+			if guardHas(alt.Guards, func(a Atom) bool { return isURLClassCall(a) && a.Pol }) {
+				continue
+			}
+			for _, g := range alt.Guards {
+				g.E.Walk(func(e *Expr) bool {
+					if e.Op == "field" && start[e.Name] && len(e.Args) == 1 && e.Args[0].Op == "field" && e.Args[0].Name == "attr" {
+						// a test of a START field that is specific to this context
+						if sv, ok := scEqualsAny(alt.Guards, v); ok && sv {
+							tested = true
+						}
+					}
+					return true
+				})
+			}
+		}
+		c := "template.sanitizersForAttributeValue#url-start-typestate[" + name + "]"
+		if tested {
+			r.OK("C02.R6", c, p.Pos(ci.Fn.Pos()), "the chain for this URL-valued context is chosen under a test of the start-of-value fields")
+		} else {
+			r.Viol("C02.R6", c, p.Pos(ci.Fn.Pos()), "context "+name+" emits complete URLs but its chain is chosen without looking at the static text or earlier actions of the attribute value: each action is sanitized on its own and the pieces concatenate",
+				`<img srcset="java{{.}}"> with "script:alert(1) 1x" → srcset="javascript:alert(1) 1x"`)
+		}
 	}
 	// static text appends to attr.value
 	cat := p.Func("template", "contextAfterText")
